@@ -248,35 +248,3 @@ fn find_first_match_4() {
 // serializer) was tried and did not finish in 27 min even for bodies <= 3 bytes; the Allow and Deprecation
 // lines are checked by kani/harness_response.rs instead.
 
-// C03 (bounded): the str-based parsers do not panic on short ASCII inputs.  These functions are outside Verus;
-// the bounds are what CBMC finishes in the thorough tier.
-const M: usize = 6;
-#[kani::proof]
-#[kani::unwind(10)]
-fn mediatype_try_from_no_panic() {
-    let buf: [u8; M] = kani::any();
-    let len: usize = kani::any();
-    kani::assume(len <= M);
-    let mut i = 0;
-    while i < M {
-        kani::assume(buf[i] < 0x80);
-        i += 1;
-    }
-    let r = MediaType::try_from(&buf[..len]);
-    // accepts exactly the canonical spellings modulo surrounding whitespace: nothing that short is canonical
-    assert!(r.is_err());
-}
-
-#[kani::proof]
-#[kani::unwind(10)]
-fn encoding_try_from_no_panic() {
-    let buf: [u8; M] = kani::any();
-    let len: usize = kani::any();
-    kani::assume(len <= M);
-    let mut i = 0;
-    while i < M {
-        kani::assume(buf[i] < 0x80);
-        i += 1;
-    }
-    let _ = crate::headers::Encoding::try_from(&buf[..len]);
-}
